@@ -177,7 +177,7 @@ def threshold_shape(F, rule):
 	#   event height - best height <= -(ANTI_REORG_DELAY - 1)     (or its exact negation)
 	n = 0
 	for fn in sorted(F.fns):
-		if not (fn.startswith('lightning::') or fn.startswith('<lightning::')) or fn.endswith('OnchainEventEntry::confirmation_threshold'):
+		if fn.endswith('OnchainEventEntry::confirmation_threshold') or not any(fn.startswith(p) or fn.startswith('<' + p) for p in ('lightning::chain::', 'lightning::ln::channel::', 'lightning::ln::channelmanager::', 'lightning::util::sweep::')):
 			continue
 		try:
 			fu = F.func(fn)
